@@ -552,8 +552,8 @@ def bl_run_harness(ctx, bl, cases):
 
 
 BL_DIMS = [("cs", "lower"), ("gap", "one"), ("lit", 1), ("cm", "none")]
-BL_CM_FAMILY = {"glued": "glued", "spaced": "block", "sqlish": "block", "dash": "line", "hash": "line"}
-BL_LIT_NAME = {2: "other-values", 3: "string-with-doubled-quote", 4: "string-with-comment-text"}
+BL_CM_FAMILY = {"glued": "glued", "spaced": "block", "sqlish": "block", "long": "block", "dash": "line", "hash": "line"}
+BL_LIT_NAME = {2: "other-values", 3: "string-with-doubled-quote", 4: "string-with-comment-text", 5: "hex-number/upper-case-string"}
 
 
 def bl_key(c, keep=None):
